@@ -232,3 +232,54 @@ func TestReproRecoverFlagKillsFastSyncingNode(t *testing.T) {
 		t.Fatalf("node survived but did not sync the chain:\n%s", text)
 	}
 }
+
+// Observation outside C03 (robustness of the pool, reported with the rig):
+// whenever the pool removes a peer it calls removePeer two or three times in a
+// row (RedoRequest for both heights and, through the switch's
+// StopPeerForError, RemovePeer; or removeTimedoutPeers and RemovePeer). The
+// first redo signal is handed to the parked requester directly, the second
+// one stays in the requester's one-slot channel. The requester's NEXT pick is
+// therefore redone at once: the next peer is asked twice for the same height
+// and its pending count is incremented twice but decremented once per block,
+// so it never returns to zero and the pool later drops that peer for "not
+// sending us data" although it answered every request (rate rule after ~40 s,
+// silence rule after 120 s). FAILS on /repo ba0aafb.
+func TestReproStaleRedoSignalDoubleCountsNextPeer(t *testing.T) {
+	var dups []string
+	res := scripted(t, 11, smallCfg(), func(c *kernel.Ctx, s *sim) {
+		w := s.w
+		a := &peerSim{role: roleByz, baseLat: 1}
+		s.addPeer(a)
+		s.connect(a)
+		a.announced, a.claim = true, 3
+		s.receive(a, encodeHeightMsg(pfxStatusResponse, 3))
+		s.step(300 * time.Millisecond)
+		s.receive(a, w.fabricateFirstRaw(1, 1).wire) // not the committed block 1
+		s.receive(a, w.canon[2].wire)
+		s.step(300 * time.Millisecond) // refused: a is removed
+		b := &peerSim{role: roleHonest, have: 3, baseLat: 1}
+		s.addPeer(b)
+		s.connect(b)
+		b.announced, b.claim = true, 3
+		s.receive(b, encodeHeightMsg(pfxStatusResponse, 3))
+		time.Sleep(300 * time.Millisecond)
+		synctestWait()
+		seen := map[uint64]int{}
+		for _, m := range s.ob.take() {
+			if m.peer == b.idx && m.kind == "block-request" {
+				seen[m.h]++
+			}
+		}
+		for h := uint64(1); h <= 3; h++ {
+			if seen[h] != 1 {
+				dups = append(dups, fmt.Sprintf("height %d requested %d times from the new peer", h, seen[h]))
+			}
+		}
+	})
+	if res.Harness != "" {
+		t.Fatalf("harness: %s", res.Harness)
+	}
+	if len(dups) > 0 {
+		t.Errorf("after a peer was removed, the next peer is asked more than once per height (and counted as many times):\n  %s", strings.Join(dups, "\n  "))
+	}
+}
